@@ -67,6 +67,226 @@ def load_corpus():
     return out
 
 
+# ------------------------------------------------------------------------------------------------------------------
+# multi-step histories (harness/cmd/c04/hist.go; model: Corr/C04.v h_run over Model.TunnelOpen.step)
+# ------------------------------------------------------------------------------------------------------------------
+WHO = ["none", "half", "L", "T", "S", "X"]
+HMID = ["none", "m1", "m2"]
+HSTATES = ["active", "revoked", "expired", "inactive", "missing"]
+
+
+def O(who, mid, secret, tun=0):
+    return {"op": "open", "who": who, "mid": mid, "secret": secret, "tun": tun}
+
+
+def SM(m, state):
+    return {"op": "setm", "m": m, "state": state}
+
+
+def RT(tun, node, m="m1"):
+    return {"op": "route", "tun": tun, "node": node, "m": m}
+
+
+def CL(tun):
+    return {"op": "close", "tun": tun}
+
+
+def SL(ms):
+    return {"op": "sleep", "ms": ms}
+
+
+def H(routing, *steps):
+    return {"mode": "hist", "routing": routing, "steps": list(steps)}
+
+
+def step_str(st):
+    if st["op"] == "open":
+        return "open(%s,%s,%s,t%d)" % (st["who"], st["mid"], st["secret"], st["tun"])
+    if st["op"] == "setm":
+        return "set(%s,%s)" % (st["m"], st["state"])
+    if st["op"] == "route":
+        return "route(t%d,%s,%s)" % (st["tun"], st["node"], st["m"])
+    if st["op"] == "close":
+        return "close(t%d)" % st["tun"]
+    return "sleep(%dms)" % st["ms"]
+
+
+def hist_str(h):
+    return ("routing: " if h["routing"] else "single-node: ") + "; ".join(step_str(s) for s in h["steps"])
+
+
+def hist_valid(h):
+    """generator constraints: nothing happens on a tunnel id after its bridge was closed (the real lifecycle goroutine removes
+    map and routing entries asynchronously), no change of a deleted mapping, route steps only with a routing table"""
+    closed, gone = set(), set()
+    for st in h["steps"]:
+        if st["op"] in ("open", "route", "close") and st["tun"] in closed:
+            return False
+        if st["op"] == "close":
+            closed.add(st["tun"])
+        if st["op"] == "setm":
+            if st["m"] in gone:
+                return False
+            if st["state"] == "missing":
+                gone.add(st["m"])
+        if st["op"] == "route" and not h["routing"]:
+            return False
+    return True
+
+
+def directed_histories():
+    out = []
+    legit_src = [O("L", "m1", "none"), O("L", "m1", "right")]
+    # (a) accepted open -> the mapping becomes invalid -> the same client opens again (new connection, both credential
+    #     paths), immediately and after a short delay; also the target on the bridge that already exists
+    for first in legit_src:
+        for st in HSTATES[1:]:
+            for again in legit_src + [O("T", "m1", "right")]:
+                a2 = dict(again, tun=1)
+                out.append(H(False, first, SM("m1", st), a2))
+                out.append(H(False, first, SM("m1", st), SL(25), a2))
+                out.append(H(False, first, SM("m1", st), dict(again, tun=0)))       # the live tunnel id
+            out.append(H(False, first, O("T", "m1", "right"), SM("m1", st), O("T", "m1", "right"), O("L", "m1", "none", 1)))
+    for st in HSTATES[1:4]:   # ... and back to active: must work again
+        out.append(H(False, O("L", "m1", "none"), SM("m1", st), O("L", "m1", "none", 1), SM("m1", "active"), O("L", "m1", "none", 1)))
+    # the same on a node with a routing table (the second open of a target parks instead of failing at once)
+    for st in HSTATES[1:]:
+        out.append(H(True, O("L", "m1", "none"), SM("m1", st), O("L", "m1", "none", 1), O("T", "m1", "right", 1)))
+        out.append(H(True, O("L", "m1", "right"), SM("m1", st), SL(25), O("L", "m1", "right", 1)))
+    # (b) a request parked BEFORE the tunnel exists, then the tunnel appears for a DIFFERENT mapping
+    early_other = [O("X", "m2", "right"), O("T", "m1", "right")]
+    out.append(H(True, O("X", "m2", "right"), O("L", "m1", "right")))
+    out.append(H(True, O("X", "m2", "right"), O("L", "m1", "none")))
+    out.append(H(True, O("X", "m2", "right"), O("L", "m1", "right"), O("T", "m1", "right")))
+    out.append(H(True, O("X", "m2", "right"), RT(0, "other", "m1")))
+    out.append(H(True, O("T", "m1", "right"), O("S", "m2", "right")))
+    out.append(H(True, O("T", "m1", "right"), O("S", "m2", "none")))
+    out.append(H(True, O("T", "m1", "right"), RT(0, "other", "m2")))
+    out.append(H(True, O("X", "m2", "right", 1), O("L", "m1", "right", 0), O("L", "m1", "right", 1)))
+    out.append(H(True, O("X", "m2", "right"), SL(260), O("L", "m1", "right")))          # poll interval already at its maximum
+    out.append(H(True, O("X", "m2", "right"), SM("m2", "revoked"), O("L", "m1", "right")))
+    # (c) the parked request IS entitled: it must still be attached / forwarded and read the other end's bytes
+    out.append(H(True, O("T", "m1", "right"), O("L", "m1", "right")))
+    out.append(H(True, O("T", "m1", "right"), O("L", "m1", "none")))
+    out.append(H(True, O("T", "m1", "right"), RT(0, "other", "m1")))
+    out.append(H(True, O("X", "m2", "right"), O("S", "m2", "right")))
+    out.append(H(True, O("X", "m2", "right"), RT(0, "other", "m2")))
+    out.append(H(True, O("T", "m1", "right"), SL(260), O("L", "m1", "right")))
+    out.append(H(True, O("T", "m1", "right", 1), O("L", "m1", "right", 0), O("L", "m1", "right", 1)))
+    out.append(H(True, RT(0, "other", "m1"), O("T", "m1", "right"), O("X", "m2", "right"), RT(0, "none"), O("none", "m1", "none")))
+    return [h for h in out if hist_valid(h)]
+
+
+def random_history(rng, routing):
+    n = rng.choice([2, 3, 3, 4, 4, 5, 6])
+    steps = []
+    for _ in range(n):
+        k = rng.random()
+        if k < 0.62:
+            who = rng.choice(["L", "L", "T", "T", "S", "X", "X", "none", "half"])
+            mid = rng.choice(["m1", "m1", "m1", "m2", "m2", "none"])
+            secret = rng.choice(["none", "right", "right", "wrong"])
+            steps.append(O(who, mid, secret, rng.choice([0, 0, 0, 1])))
+        elif k < 0.82:
+            steps.append(SM(rng.choice(["m1", "m1", "m2"]), rng.choice(["active", "revoked", "expired", "inactive", "missing", "revoked"])))
+        elif k < 0.90 and routing:
+            steps.append(RT(rng.choice([0, 0, 1]), rng.choice(["other", "other", "none"]), rng.choice(["m1", "m2"])))
+        elif k < 0.96:
+            steps.append(CL(rng.choice([0, 1])))
+        else:
+            steps.append(SL(rng.choice([5, 30])))
+    return H(routing, *steps)
+
+
+def exhaustive_histories(routing, depth):
+    if routing:
+        alpha = [O("T", "m1", "right"), O("X", "m2", "right"), O("L", "m1", "right"), O("S", "m2", "none"),
+                 RT(0, "other", "m1"), RT(0, "none"), SM("m1", "revoked"), CL(0)]
+    else:
+        alpha = [O("L", "m1", "none"), O("L", "m1", "right"), O("T", "m1", "right"), O("X", "m2", "right"), O("none", "m1", "none"),
+                 SM("m1", "revoked"), SM("m1", "active"), SM("m1", "expired"), CL(0)]
+    out = []
+
+    def rec(prefix):
+        if prefix:
+            h = H(routing, *prefix)
+            if not hist_valid(h):
+                return
+            if len(prefix) == depth:
+                out.append(h)
+                return
+        for a in alpha:
+            rec(prefix + [a])
+    rec([])
+    return out
+
+
+def hist_value(flags_vf_si, h, o):
+    steps = []
+    for st, so in zip(h["steps"], o["steps"]):
+        if st["op"] == "open":
+            steps.append([0, WHO.index(st["who"]), HMID.index(st["mid"]), SECRETS.index(st["secret"]), st["tun"], so["registered"]])
+        elif st["op"] == "setm":
+            steps.append([1, HMID.index(st["m"]), HSTATES.index(st["state"])])
+        elif st["op"] == "route":
+            steps.append([2, st["tun"], 0 if st["node"] == "none" else 1, HMID.index(st["m"])])
+        elif st["op"] == "close":
+            steps.append([3, st["tun"]])
+        else:
+            steps.append([4])
+    obs = [[so["ack"], so["role"], list(so["snap"])] for so in o["steps"]]
+    return [list(flags_vf_si), [99, h["routing"]], steps, obs]
+
+
+def run_sharded(binary, cases, shards):
+    """several harness processes side by side (histories with parked requests wait on the real 50-200 ms routing poll)"""
+    import threading
+    if not cases:
+        return []
+    shards = max(1, min(shards, len(cases)))
+    parts = [cases[i::shards] for i in range(shards)]
+    res = [None] * shards
+    errs = []
+
+    def work(i):
+        try:
+            res[i] = vlib.run_harness(binary, parts[i], timeout=1500)
+        except vlib.Broken as b:
+            errs.append(b)
+    ths = [threading.Thread(target=work, args=(i,)) for i in range(shards)]
+    [t.start() for t in ths]
+    [t.join() for t in ths]
+    if errs:
+        raise errs[0]
+    outs = [None] * len(cases)
+    for i in range(shards):
+        for j, o in enumerate(res[i]):
+            outs[i + j * shards] = o
+    return outs
+
+
+def shrink_hist(binary, h, cls):
+    """greedy: drop steps while the Go-side predicate still fails with the same class"""
+    def fails(x):
+        if not x["steps"] or not hist_valid(x):
+            return False
+        try:
+            o = vlib.run_harness(binary, [x], timeout=120)[0]
+        except vlib.Broken:
+            return False
+        return (not o["prop_ok"]) and o.get("class", "").split(":")[0] == cls.split(":")[0]
+    cur = h
+    for _ in range(8):
+        changed = False
+        for i in range(len(cur["steps"])):
+            t = dict(cur, steps=cur["steps"][:i] + cur["steps"][i + 1:])
+            if fails(t):
+                cur, changed = t, True
+                break
+        if not changed:
+            break
+    return cur
+
 def classify(c, o, flags):
     """map a failing cell to the known defect it manifests (only while the witness of that defect reproduces on this tree)"""
     cls = o.get("class", "")
@@ -93,8 +313,10 @@ def run(ctx, only_cases=None):
         broken = b   # keep going: search the implementation for a concrete failing cell first
 
     rng = ctx.rng
+    hists = []
     if only_cases is not None:
-        cases = list(PROBES) + list(only_cases)
+        hists = [c for c in only_cases if c.get("mode") == "hist"]
+        cases = list(PROBES) + [c for c in only_cases if c.get("mode") != "hist"]
     else:
         table = all_cells()
         rng.shuffle(table)                       # arrival order varies with the seed: cells must not influence one another
@@ -104,7 +326,19 @@ def run(ctx, only_cases=None):
                 t2 = all_cells()
                 rng.shuffle(t2)
                 cases += t2
+        corpus_h = [c for c in cases if c.get("mode") == "hist"]
+        cases = [c for c in cases if c.get("mode") != "hist"]
+        hists = corpus_h + directed_histories()
+        hists += [random_history(rng, False) for _ in range(1500 if thorough else 350)]
+        hists += [random_history(rng, True) for _ in range(400 if thorough else 110)]
+        hists = [h for h in hists if hist_valid(h)]
+        if thorough:
+            hists += exhaustive_histories(False, 3) + exhaustive_histories(False, 4) + exhaustive_histories(True, 3)
     outs = vlib.run_harness(binary, cases, timeout=900)
+    h_local = [h for h in hists if not h["routing"]]
+    h_route = [h for h in hists if h["routing"]]
+    hists = h_local + h_route
+    houts = run_sharded(binary, h_local, 2) + run_sharded(binary, h_route, 12 if thorough else 6)
 
     def probe(p):
         return outs[PROBES.index(p)]
@@ -145,7 +379,48 @@ def run(ctx, only_cases=None):
                           "(a legitimate connection must be acknowledged, attached (role %d) and receive the other end's bytes)" % (
                               describe(p), o["ack"], o["role"], o["got_bytes"], want_role), {"case": p, "observed": o})
 
+    # histories: the predicate at every attachment point
+    hfail = 0
+    for h, o in zip(hists, houts):
+        if o["prop_ok"]:
+            continue
+        hfail += 1
+        nfail += 1
+        key = "hist:" + o.get("class", "?").split(":")[0] + ":" + hist_str(h)
+        if len([k for k in reported if k.startswith("hist:")]) < 4 and key not in reported:
+            reported.add(key)
+            small = shrink_hist(binary, h, o.get("class", ""))
+            so = vlib.run_harness(binary, [small])[0]
+            if so["prop_ok"]:
+                small, so = h, o
+            ctx.violation("hist:" + so.get("class", "?").split(":")[0] + ":" + hist_str(small),
+                          "real SessionManager.HandlePacket, history [%s]: %s" % (hist_str(small), so["prop_msg"]),
+                          {"case": small, "observed": so})
+    for h, o in zip(hists, houts):
+        for st, so in zip(h["steps"], o["steps"]):
+            if st["op"] == "open" and so["registered"] != (st["who"] != "none"):
+                broken = broken or vlib.Broken("C04 harness: control-connection record does not match the handshake the harness performed",
+                                               "%s -> %s" % (hist_str(h), so))
+
     # (ii) model vs implementation (the variant of the model is the one the witnesses identify)
+    hterms = [hist_value([vf, si], h, o) for h, o in zip(hists, houts) if o["prop_ok"] and not o["ambiguous"] and len(o["steps"]) == len(h["steps"])]
+    hsrc = [(h, o) for h, o in zip(hists, houts) if o["prop_ok"] and not o["ambiguous"] and len(o["steps"]) == len(h["steps"])]
+    hmism = []
+    try:
+        if hterms:
+            hres, hpred = vlib.model_eval("C04", hterms, predict=True)
+            hmism = [i for i, ok in enumerate(hres) if not ok]
+            hsmall = [i for i in range(len(hterms)) if len(hsrc[i][0]["steps"]) <= 4][:: max(1, len(hterms) // 12)][:12]
+            hvm = sorted(hsmall[k] for k in vlib.vm_crosscheck("C04", [hterms[i] for i in hsmall]))
+            if hvm != sorted(i for i in hsmall if not hres[i]):
+                raise vlib.Broken("extracted runner and vm_compute disagree on the C04 history model", "vm=%s" % hvm)
+            for i in hmism[:2]:
+                ctx.violation("model-mismatch-history", "Corr/C04.check_hist: Model/TunnelOpen.v `run` and the real SessionManager disagree on the history "
+                              "[%s]: model predicts per step [ack, role, snapshot]=%s, observed %s; the history theorems of Properties/C04.v no "
+                              "longer speak about this code" % (hist_str(hsrc[i][0]), hpred[i], [[x["ack"], x["role"], x["snap"]] for x in hsrc[i][1]["steps"]]),
+                              {"case": hsrc[i][0], "observed": hsrc[i][1], "model": hpred[i]}, found_input=False)
+    except vlib.Broken as b:
+        broken = broken or b
     terms = [[[vf, si], cell_codes(c), [o["ack"], o["role"], o["entitled"]]] for c, o in zip(cases, outs)]
     mism = []
     try:
@@ -180,19 +455,46 @@ def run(ctx, only_cases=None):
     for k, (c, o) in distinct.items():
         kk = "ack=%d,role=%d" % (o["ack"], o["role"])
         dist["observed_ack_role"][kk] = dist["observed_ack_role"].get(kk, 0) + 1
+    h_nontrivial = set()
+    h_parked = h_resolved_attached = h_attach = 0
+    for h, o in zip(hists, houts):
+        roles = [so["role"] for st, so in zip(h["steps"], o["steps"]) if st["op"] == "open"]
+        h_parked += roles.count(6)
+        h_attach += sum(1 for r in roles if r in (1, 2, 3, 4))
+        prev_parked = 0
+        for so in o["steps"]:
+            if so["snap"][9] < prev_parked and (so["snap"][3] or so["snap"][7] or so["snap"][8]):
+                h_resolved_attached += 1
+            prev_parked = so["snap"][9]
+        if sum(1 for r in roles if r != 0) >= 1 and len(h["steps"]) >= 2:
+            h_nontrivial.add(hist_str(h))
     samples = []
     for p in (P_EXISTING, P_LEGIT[0], P_CROSS):
         o = probe(p)
         samples.append({"cell": p, "reads": describe(p), "observed": {k: o[k] for k in ("ack", "role", "got_bytes", "marker_at", "entitled", "prop_ok")}})
     ctx.coverage.update({
-        "evaluations": len(cases), "distinct_nontrivial": len(nontrivial), "exhaustive": only_cases is None,
+        "evaluations": len(cases) + len(hists), "distinct_nontrivial": len(nontrivial) + len(h_nontrivial), "exhaustive": only_cases is None,
+        "histories": {"driven": len(hists), "with_routing_table": len(h_route), "distinct_nontrivial": len(h_nontrivial),
+                      "steps_total": sum(len(h["steps"]) for h in hists), "parked_requests": h_parked, "parked_then_attached_or_forwarded": h_resolved_attached,
+                      "attachments_checked": h_attach, "ambiguous_skipped_in_diff": sum(1 for o in houts if o["ambiguous"]),
+                      "model_vs_impl_histories": len(hterms), "model_vs_impl_mismatches": len(hmism), "predicate_failures": hfail,
+                      "directed": len(directed_histories()), "exhaustive_small_alphabet": thorough and only_cases is None,
+                      "samples": [{"history": hist_str(h), "observed": [[x["ack"], x["role"], x["snap"]] for x in o["steps"]], "readers": o["readers"]}
+                                  for h, o in list(zip(hists, houts))[:: max(1, len(hists) // 3)][:3]]},
         "rule": "the full table identity(5: none/half-handshaken/listen/target/stranger) x named mapping(3: none/the tunnel's/another one owned by "
                 "the requester) x secret(3) x resume token(2) x state of the named mapping(5) x tunnel state at arrival(4: no bridge / bridge "
                 "waiting locally / bridge already served / waiting on another node via the routing table) = 1800 cells, every one driven through "
                 "the real SessionManager.HandlePacket on fresh connections, mappings and tunnel ids of a fully wired server fixture (real "
                 "handshakes, real bridge, real routing table and dedicated cross-node connection to a fake peer node); witnesses and corpus "
                 "first, arrival order shuffled from VERIF_SEED (thorough: four orders). distinct = distinct cells; non-trivial = a tunnel "
-                "existed at arrival or the request was acknowledged with success.",
+                "existed at arrival or the request was acknowledged with success. PLUS multi-step histories through the same real dispatcher: "
+                "directed ones (accepted open -> revoke/expire/deactivate/delete -> open again; a request parked in the routing poll before its "
+                "tunnel exists -> the tunnel appears for another / for its own mapping, locally or as a routing record) and random ones from "
+                "VERIF_SEED over opens by 6 identities x 3 mappings x 3 secrets on 2 tunnel ids, mapping state changes, routing records of "
+                "another node, bridge closures and delays (thorough: also every history of depth 3-4 over a 9-letter single-node alphabet and of "
+                "depth 3 over an 8-letter routing alphabet); the predicate is evaluated at every attachment point and every history is diffed "
+                "step by step against Model.TunnelOpen.run. distinct non-trivial history = distinct step list with >= 2 steps in which some open "
+                "was acknowledged, attached or parked.",
         "samples": samples,
         "model_vs_impl_cases": len(terms), "model_vs_impl_mismatches": len(mism),
         "impl_property_failures": nfail, "impl_known_defect_cells": known_counts,
@@ -205,7 +507,9 @@ def run(ctx, only_cases=None):
         "cross-node: node-to-node trust (CrossNodeListener accepting TargetReady frames from peers) is outside the property; the peer node is a fake TCP listener",
         "handleLocalBridgeWait (routing entry pointing at this node without a local bridge) is modelled (WaitLocal) and covered by the theorems but not driven on the real code (5 s polling loop)",
         "no-bridge cells run on a fixture without routing table (a legitimate target with no bridge anywhere otherwise polls the routing table for 10 s)",
-        "concurrent TunnelOpen packets for the same tunnel id are serialised in the model (one open is atomic)",
+        "concurrent TunnelOpen packets for the same tunnel id are serialised in the model (one open is atomic); histories in which two requests are parked on one tunnel id at once are checked by the predicate but not diffed (resolution order is the scheduler's)",
+        "histories never touch a tunnel id again after its bridge was closed (the real lifecycle goroutine removes map and routing entries asynchronously) and never re-use a connection for a second TunnelOpen",
+        "a parked request is recognised by the harness as: success ack written, no routing record visible, call still inside HandlePacket after 120 ms",
     ]
     if broken is not None:
         raise broken
